@@ -127,6 +127,26 @@ func init() {
 		s := zero(g.run.P.NamedType("bytes", "Buffer")).(Struct)
 		s[0] = a[0]
 		*p = s
+		// an empty slice with spare capacity is a buffer to be (re)filled in place
+		switch x := a[0].(type) {
+		case Slice:
+			if len(x) == 0 && cap(x) > 0 {
+				full := x[:cap(x)]
+				key := &full[0]
+				bk := g.run.backings[key]
+				if bk == nil {
+					g.run.nextObj++
+					bk = &Backing{id: g.run.nextObj}
+					g.run.backings[key] = bk
+				}
+				g.run.bufBacking[p] = bk
+			}
+		case *Blob:
+			if x != nil && x.bk != nil && len(x.Segs) == 0 {
+				g.run.bufBacking[p] = x.bk
+				s[0] = Slice(nil)
+			}
+		}
 		return p
 	})
 	reg("bytes.NewBufferString", func(g *G, fr *Frame, fn *ssa.Function, a []Value) Value {
@@ -153,7 +173,12 @@ func init() {
 	write := func(g *G, fr *Frame, fn *ssa.Function, a []Value) Value {
 		s, cur := bufContent(g, a[0])
 		add := g.asBlob(a[1])
-		s[0] = blobConcat(g, cur, add)
+		nb := blobConcat(g, cur, add)
+		if bk := g.run.bufBacking[a[0].(*Value)]; bk != nil {
+			bk.gen++
+			nb = &Blob{Segs: nb.Segs, bk: bk, bgen: bk.gen}
+		}
+		s[0] = nb
 		return Tuple{add.Len(g), Iface{}}
 	}
 	reg("(*bytes.Buffer).Write", write)
@@ -187,7 +212,12 @@ func init() {
 	reg("(*bytes.Buffer).ReadFrom", func(g *G, fr *Frame, fn *ssa.Function, a []Value) Value {
 		s, cur := bufContent(g, a[0])
 		content, err := g.readAllFrom(a[1].(Iface))
-		s[0] = blobConcat(g, cur, content)
+		nb := blobConcat(g, cur, content)
+		if bk := g.run.bufBacking[a[0].(*Value)]; bk != nil {
+			bk.gen++
+			nb = &Blob{Segs: nb.Segs, bk: bk, bgen: bk.gen}
+		}
+		s[0] = nb
 		if err == nil {
 			err = Iface{}
 		}
